@@ -164,6 +164,15 @@ pub fn ordinals(n: u64) -> Vec<SpelledOrd> {
 }
 
 pub fn segment(word: &str, out: &mut Vec<String>) {
+    segment_impl(word, out, false)
+}
+
+/// like `segment`, but the conjunction morpheme is kept as "&"
+pub fn segment_keep_conj(word: &str, out: &mut Vec<String>) {
+    segment_impl(word, out, true)
+}
+
+fn segment_impl(word: &str, out: &mut Vec<String>, keep_conj: bool) {
     const INVENTORY: &[(&str, &str)] = &[
         ("negentien", "negentien"),
         ("zeventien", "zeventien"),
@@ -207,6 +216,8 @@ pub fn segment(word: &str, out: &mut Vec<String>) {
             if w.starts_with(form) {
                 if !canon.is_empty() {
                     out.push(canon.to_string());
+                } else if keep_conj {
+                    out.push("&".to_string());
                 }
                 w = &w[form.len()..];
                 continue 'outer;
